@@ -55,6 +55,7 @@ class MarkovChain(ABC):
         """
         update_interval = 20  # small initial guess for the update interval
         start_length = copy(self.chain_length)
+        steps_taken = 0
 
         # first find the runtime in seconds:
         run_time = ((days * 24.0 + hours) * 60.0 + minutes) * 60.0
@@ -68,7 +69,7 @@ class MarkovChain(ABC):
             # set the interval such that updates are roughly once per second
             steps_taken = self.chain_length - start_length
             current_time = time()
-            update_interval = int(steps_taken / (current_time - start_time))
+            update_interval = max(int(steps_taken / (current_time - start_time)), 1)
             self.ProgressPrinter.countdown_progress(end_time, steps_taken)
         self.ProgressPrinter.countdown_final(run_time, steps_taken)
 
